@@ -27,6 +27,7 @@ from ..report import Check
 SPECIES = {"H": "HI", "D": "DI", "H2": "H2I", "Hp": "HII", "Hm": "HM", "E": "eM", "HE": "HeI"}  # KROME idx name -> naunet alias of that species
 SLOT = {a: i for i, a in enumerate(["HI", "DI", "H2I", "HII", "HM", "eM", "HeI"])}
 USER = ["user_a", "user_crflux"]
+ARRAYS = []  # user arrays indexed by a species index: user_tab(idx_X)
 DERIVED = ["Te", "lnTe", "T32", "invT", "invTe", "sqrTgas"]
 
 
@@ -120,12 +121,14 @@ def fortran_term(text, env):
         if re.match(r"^[A-Za-z_]", t):
             if peek() == "(":
                 eat("(")
-                if t == "n":
+                if t == "n" or t in env.get("arrays", {}):
                     nm = eat()
                     eat(")")
                     if not nm.startswith("idx_") or nm[4:] not in SPECIES:
                         raise FortranError(f"unknown abundance reference {nm}")
-                    return env["y"][SLOT[SPECIES[nm[4:]]]], False
+                    if t == "n":
+                        return env["y"][SLOT[SPECIES[nm[4:]]]], False
+                    return env["arrays"][t][SLOT[SPECIES[nm[4:]]]], False  # element of a user array
                 args = [expr()]
                 while peek() == ",":
                     eat()
@@ -249,6 +252,8 @@ def gen_exprs(n, seed, depth=3):
             # trigonometric / hyperbolic intrinsics and their inverses (same names in Fortran and C)
             "2.1d-10*atan(Tgas/1.d3)", "asin(invT)", "acos(T32/(1.d0+T32))", "sinh(lnTe)*1d-12", "tanh(Tgas/1d4)", "cos(Tgas/1.d2)+sin(Tgas/1.d2)", "atanh(invT/2.d0)", "1d-9*tan(invT)", "asinh(T32)", "acosh(1.d0+T32)", "cosh(invTe)",
             "dsqrt(Tgas)", "dlog10(Tgas)*1d-10", "dlog(Tgas)",
+            # user arrays indexed by a species index keep their name (only n(idx_X) is the abundance vector)
+            "1d-9*user_tab(idx_H)/n(idx_H)", "user_dens(idx_D)+n(idx_D)", "Tgas**user_xi(idx_H)", "user_tab(idx_Hp)*2.0d0", "exp(-user_dens(idx_H)/Tgas)*n(idx_H)", "user_xi(idx_Hm)/user_tab(idx_D)",
             # a power as the right operand of a division (and of a subtraction): it stays one unit
             "2.0d-9/(T32)**(-5.000e-01)", "user_a/Tgas**(-0.5)", "Tgas/invT**0.5", "user_a/Tgas**(-0.5d0)/T32", "1d0/Tgas**2/T32**(-0.5)", "Tgas-T32**(-0.5)", "1d-9/sqrTgas**(-1)", "2.5d0/Tgas**0.5d0*invT", "Tgas/T32**(-2)**1",
             # literals whose exponent is separated from the mantissa (fixed-form spelling) or doubled: reject, or keep the value
@@ -319,7 +324,7 @@ def make_tu(cexprs, deriveds, lifted):
     macros = "\n".join(f"#define IDX_{a} {i}" for a, i in SLOT.items())
     der = "\n".join(f"    double {k} = {v};" for k, v in (deriveds or {}).items() if k in DERIVED)
     body = "\n".join(f"    out[{i}] = {c};" for i, c in cexprs)
-    return f"#include <math.h>\n{macros}\nextern \"C\" void f(double *out, double *y, double Tgas, double nH, {', '.join('double ' + u for u in USER)}) {{\n{der}\n{body}\n}}\n"
+    return f"#include <math.h>\n{macros}\nextern \"C\" void f(double *out, double *y, double Tgas, double nH, {', '.join(['double ' + u for u in USER] + ['double *' + a for a in ARRAYS])}) {{\n{der}\n{body}\n}}\n"
 
 
 def compile_tu(text, path, table=None):
@@ -355,8 +360,9 @@ def main(pid, tier):
     os.makedirs(work, exist_ok=True)
     exprs = gen_exprs(1200 if thorough else 260, chk.seed) + bundled_exprs(thorough)
     exprs += [e for e in signed_number_family(thorough) if e not in exprs]
-    global USER
-    USER = sorted(set(USER) | {m for e in exprs for m in re.findall(r"\buser_\w+", e)})
+    global USER, ARRAYS
+    ARRAYS = sorted({m for e in exprs for m in re.findall(r"\b(user_\w+)\(idx_", e)})
+    USER = sorted((set(USER) | {m for e in exprs for m in re.findall(r"\buser_\w+", e)}) - set(ARRAYS))
     tr = translate(exprs, work)
     deriveds = tr["deriveds"]
     accepted = [(i, exprs[i], o["c"]) for i, o in enumerate(tr["out"]) if o["ok"]]
@@ -367,6 +373,8 @@ def main(pid, tier):
     T, users = z3.Real("Tgas"), {u: z3.Real(u) for u in USER}
     y = [z3.Real(f"y{j}") for j in range(len(SLOT))]
     env = reference_env(T, users, y)
+    arr_syms = {a: [z3.Real(f"{a}__{j}") for j in range(len(SLOT))] for a in ARRAYS}
+    env["arrays"] = arr_syms
     t0 = time.time()
     # compile in batches; a batch that fails is split to find the offending expressions
     pending = [accepted[k:k + 120] for k in range(0, len(accepted), 120)]
@@ -396,7 +404,7 @@ def main(pid, tier):
             chk.violation(f"invalid-c:{fe}", f"accepted expression {fe!r} is translated to invalid C {ce!r}: {first[-120:]}", {"fortran": fe, "c": ce, "compiler": first[-300:]})
     s = z3.Solver()
     s.set("timeout", 20_000)
-    s.add(T > 0, *[v > 0 for v in y], *[u > 0 for u in users.values()])
+    s.add(T > 0, *[v > 0 for v in y], *[u > 0 for u in users.values()], *[v > 0 for vs in arr_syms.values() for v in vs])
     undecided = set()
     natq = []
     for b, ll, table in batches:
@@ -405,7 +413,9 @@ def main(pid, tier):
         st = State()
         H.make_array(st, "out", len(b))
         H.make_array(st, "y", len(y), y)
-        M.run_function("f", st, [Ptr("out", 0), Ptr("y", 0), T, z3.Real("nH"), *[users[u] for u in USER]])
+        for a in ARRAYS:
+            H.make_array(st, a, len(SLOT), arr_syms[a])
+        M.run_function("f", st, [Ptr("out", 0), Ptr("y", 0), T, z3.Real("nH"), *[users[u] for u in USER], *[Ptr(a, 0) for a in ARRAYS]])
         chk.functions.add("ExpressionConverter(Fortran->C) output, compiled")
         for n, (idx, fe, ce) in enumerate(b):
             got = st.load("out", 8 * n)
@@ -452,7 +462,7 @@ def _native_replay(chk, natq, deriveds, work):
 
     rnd = random.Random(chk.seed + 3)
     tu = make_tu([(n, c) for n, (_, _, c, _, _) in enumerate(natq)], deriveds, False)
-    tu += "#include <stdio.h>\nint main(int argc, char** argv) { double y[16]; double in[64]; for (int i = 1; i < argc; i++) sscanf(argv[i], \"%%lf\", &in[i-1]);\n for (int j = 0; j < %d; j++) y[j] = in[%d + j];\n static double out[%d]; f(out, y, in[0], in[1]%s); for (int i = 0; i < %d; i++) printf(\"%%.17g\\n\", out[i]); return 0; }\n" % (len(SLOT), 2 + len(USER), len(natq) + 1, "".join(f", in[{2 + k}]" for k in range(len(USER))), len(natq))
+    tu += "#include <stdio.h>\nint main(int argc, char** argv) { double y[16]; double in[256]; for (int i = 1; i < argc; i++) sscanf(argv[i], \"%%lf\", &in[i-1]);\n for (int j = 0; j < %d; j++) y[j] = in[%d + j];\n static double out[%d]; f(out, y, in[0], in[1]%s%s); for (int i = 0; i < %d; i++) printf(\"%%.17g\\n\", out[i]); return 0; }\n" % (len(SLOT), 2 + len(USER), len(natq) + 1, "".join(f", in[{2 + k}]" for k in range(len(USER))), "".join(f", in + {2 + len(USER) + len(SLOT) * (1 + k)}" for k in range(len(ARRAYS))), len(natq))
     src = os.path.join(work, "replay.cpp")
     open(src, "w").write(tu)
     r = subprocess.run(["g++", "-O0", "-w", "-ffp-contract=off", src, "-o", src + ".exe", "-lm"], capture_output=True, text=True)
@@ -462,11 +472,12 @@ def _native_replay(chk, natq, deriveds, work):
         return
     confirmed = {}
     for attempt in range(6):
-        vals = [rnd.uniform(5, 500), rnd.uniform(1, 100)] + [rnd.uniform(0.5, 4) for _ in USER] + [rnd.uniform(0.1, 3) for _ in SLOT]
+        vals = [rnd.uniform(5, 500), rnd.uniform(1, 100)] + [rnd.uniform(0.5, 4) for _ in USER] + [rnd.uniform(0.1, 3) for _ in SLOT] + [rnd.uniform(0.2, 5) for _ in ARRAYS for _j in SLOT]
         out = subprocess.run([src + ".exe", *[repr(v) for v in vals]], capture_output=True, text=True).stdout.split()
         envf = {"Tgas": vals[0], "nH": vals[1]}
         envf.update({u: vals[2 + k] for k, u in enumerate(USER)})
         envf.update({f"y{j}": vals[2 + len(USER) + j] for j in range(len(SLOT))})
+        envf.update({f"{a}__{j}": vals[2 + len(USER) + len(SLOT) * (1 + k) + j] for k, a in enumerate(ARRAYS) for j in range(len(SLOT))})
         for n, (idx, fe, ce, ref, name) in enumerate(natq):
             if idx in confirmed:
                 continue
